@@ -539,7 +539,7 @@ func (e *Engine) mergeStates(outs []*State, basePC, mark int, dst *ssa.Call) (*S
 	f0 := outs[0].top()
 	for _, o := range outs[1:] {
 		f := o.top()
-		if len(o.frames) != len(outs[0].frames) || f.block != f0.block || f.ip != f0.ip || f.prev != f0.prev {
+		if len(o.frames) != len(outs[0].frames) || f.block != f0.block || f.ip != f0.ip || f.prev != f0.prev || o.goCount != outs[0].goCount {
 			return nil, false
 		}
 	}
@@ -704,6 +704,10 @@ func (e *Engine) builtin(st *State, fr *Frame, dst *ssa.Call, b *ssa.Builtin, cc
 		case ArrayVal:
 			set(ConstBV(uint64(len(x.Elems)), 64))
 		case PtrVal:
+			if _, isChan := cc.Args[0].Type().Underlying().(*types.Chan); isChan {
+				set(e.chanLenCap(st, x, b.Name() == "cap"))
+				break
+			}
 			n := cc.Args[0].Type().Underlying().(*types.Pointer).Elem().Underlying().(*types.Array).Len()
 			set(ConstBV(uint64(n), 64))
 		default:
@@ -808,6 +812,8 @@ func (e *Engine) builtin(st *State, fr *Frame, dst *ssa.Call, b *ssa.Builtin, cc
 			}
 		}
 		set(acc)
+	case "close":
+		e.chanClose(st, args[0])
 	case "ssa:wrapnilchk":
 		// ssa:wrapnilchk(ptr, recvType, method): the nil check of a pointer-receiver wrapper around a value method
 		if p, ok := args[0].(PtrVal); ok && p.Obj == 0 {
